@@ -639,5 +639,6 @@ Theorem parent_roundtrip_refuted :
     get_parent_location (fun l => l) remote cfg' = Ok (Some (asc "git://h/r")).
 Proof.
   exists (asc "foo"), (asc "origin"), (asc "git://h/r,branch=b").
-  eexists. split; [vm_compute; reflexivity|]. split; vm_compute; reflexivity.
+  exists {| cfg_url := Some (asc "git://h/r"); cfg_merge := [(asc "foo", asc "refs/heads/b")] |}.
+  split; [vm_compute; reflexivity|]. split; vm_compute; reflexivity.
 Qed.
